@@ -56,6 +56,9 @@ def entropy(cs, k, w):
 
 
 def build(ctx):
+    import harness.util as _U
+    _U.PRELUDE = 3      # every third object (by crc32 of its sequence) answers after a query history (util.prelude)
+    _U.DECORATE = 4     # every fourth sequence is handed to the constructor in another accepted spelling (util.decorate)
     rng = ctx.rng
     jobs = []
     seqs = gen_seq.random_classes(rng, ctx.pick(70, 400), 1, 60)
